@@ -695,7 +695,7 @@ func isParamOf(fi *load.FuncInfo, v *types.Var) bool {
 func CheckC13(c *Ctx) {
 	run := c.Run
 	run.Technique = "typed-AST protocol/typestate lints on Backtest.Run and Backtest.worker (Begin → per asset: AssetBegin → one Write per strategy → AssetEnd → End after Wait) + SSA shared-write analysis rooted at `go b.worker` + lock-consistency lints on both report implementations + comparator totality lint"
-	run.Explanation = "Equality of the reported numbers with a direct evaluation is NOT decided. Decided structurally: Begin is called before any worker starts and End after wg.Wait(); in the worker, for every asset, AssetBegin precedes the strategy loop and AssetEnd follows it; each iteration of the strategy loop calls report.Write exactly once, with the outputs of strategy.ComputeWithOutcome for that strategy on a fresh SliceToChan of that asset's snapshots (no iteration can skip it); all assets flow through one channel shared by the workers. The SSA shared-write analysis shows that nothing reachable from `go b.worker` (including both bundled Report implementations, resolved through the interface by CHA) writes shared memory without holding a mutex, and in both report types every access to the shared maps/slices happens under the mutex. Functions passed to slices.SortFunc / sort.Slice must be total orders on the compared field: no conversion of a floating-point difference to int (results closer than 1 would compare equal, so the entry presented as best need not be maximal). No run crashes: every slice index in package backtest is the key of a range over that slice, a constant below the constant element count of helper.Duplicate, or protected by a length check; the rule is exercised on a built-in positive example on every run."
+	run.Explanation = "Equality of the reported numbers with a direct evaluation is NOT decided. Decided structurally: Begin is called before any worker starts and End after wg.Wait(); in the worker, for every asset, AssetBegin precedes the strategy loop and AssetEnd follows it; each iteration of the strategy loop calls report.Write exactly once, with the outputs of strategy.ComputeWithOutcome for that strategy on a fresh SliceToChan of that asset's snapshots (no iteration can skip it); all assets flow through one channel shared by the workers, and the loop over that channel is left only when it is exhausted (no return, break, goto, panic or process exit in its body: an asset that cannot be loaded is skipped, it does not stop the worker). The SSA shared-write analysis shows that nothing reachable from `go b.worker` (including both bundled Report implementations, resolved through the interface by CHA) writes shared memory without holding a mutex, and in both report types every access to the shared maps/slices happens under the mutex. Functions passed to slices.SortFunc / sort.Slice must be total orders on the compared field: no conversion of a floating-point difference to int (results closer than 1 would compare equal, so the entry presented as best need not be maximal). No run crashes: every slice index in package backtest is the key of a range over that slice, a constant below the constant element count of helper.Duplicate, or protected by a length check; the rule is exercised on a built-in positive example on every run."
 	run.Trusted = []string{"go/types", "go/ssa + CHA", "sync.Mutex semantics"}
 	runFi := c.fn("backtest", "Backtest", "Run")
 	wFi := c.P.Method("backtest", "Backtest", "worker")
@@ -748,6 +748,43 @@ func CheckC13(c *Ctx) {
 		c.violate("backtest/protocol", site+".worker", "asset loop", wFi.Decl.Pos(), "the worker no longer ranges over the shared channel of asset names (undecided, fails closed)")
 		return
 	}
+	// one asset that cannot be processed does not end the worker: the loop over the shared channel
+	// is left only when the channel is exhausted
+	drains := true
+	var leave func(n ast.Node, inner bool)
+	leave = func(n ast.Node, inner bool) {
+		ast.Inspect(n, func(m ast.Node) bool {
+			switch x := m.(type) {
+			case *ast.FuncLit:
+				return false
+			case *ast.ForStmt, *ast.RangeStmt, *ast.SwitchStmt, *ast.TypeSwitchStmt, *ast.SelectStmt:
+				if m != n {
+					leave(m, true)
+					return false
+				}
+			case *ast.ReturnStmt:
+				drains = false
+				c.violate("backtest/drain", site+".worker", "return in asset loop", x.Pos(), "the worker stops at this asset: the assets still queued are backtested by nobody once every worker has stopped, and Run still reports success")
+			case *ast.BranchStmt:
+				if x.Tok == token.GOTO || (x.Tok == token.BREAK && (!inner || x.Label != nil)) {
+					drains = false
+					c.violate("backtest/drain", site+".worker", "break in asset loop", x.Pos(), "the worker stops at this asset: the assets still queued are backtested by nobody once every worker has stopped, and Run still reports success")
+				}
+			case *ast.CallExpr:
+				if id, ok := x.Fun.(*ast.Ident); ok && id.Name == "panic" && info.Uses[id] == types.Universe.Lookup("panic") {
+					drains = false
+					c.violate("backtest/drain", site+".worker", "panic in asset loop", x.Pos(), "a panic on a worker goroutine ends the whole run")
+				}
+				if nm := calleeName(info, x); nm == "os.Exit" || strings.HasPrefix(nm, "log.Fatal") || strings.HasPrefix(nm, "log.Panic") || nm == "runtime.Goexit" {
+					drains = false
+					c.violate("backtest/drain", site+".worker", nm+" in asset loop", x.Pos(), "the worker (or the process) stops at this asset")
+				}
+			}
+			return true
+		})
+	}
+	leave(assetLoop.Body, false)
+	run.Oblige(drains)
 	var stratLoop *ast.RangeStmt
 	idx := map[string]int{}
 	for i, s := range assetLoop.Body.List {
